@@ -752,6 +752,20 @@ def rand_spec_high_ratio(rng):
     return dict(nodes=nodes, conns=conns, supervisor="n2", seed=rng.randrange(1 << 30))
 
 
+def spec_fifo_blocking(rng):
+    """a fast sender into a blocking connection whose communication delay jitters by more than the sender's period, so that later
+    messages overtake earlier ones and the FIFO rule (receive time >= previous receive time) actually binds, whatever part of the
+    arrival queue the receiver's side has already consumed"""
+    r_src = rng.choice([16, 20, 25])
+    r_dst = rng.choice([5, 8])
+    per = 1.0 / r_src
+    nodes = [dict(name="n0", rate=r_src, comp=dict(kind="det", loc=round(0.1 * per, 4), scale=0.0), advance=False, scheduling="FREQUENCY"),
+             dict(name="n1", rate=r_dst, comp=dict(kind="det", loc=0.01, scale=0.0), advance=rng.random() < 0.5, scheduling="FREQUENCY")]
+    conns = [dict(src="n0", dst="n1", blocking=True, skip=False, jitter="LATEST", window=rng.choice([1, 3]), comm=dict(kind="normal", loc=round(1.5 * per, 4), scale=round(1.5 * per, 4))),
+             dict(src="n1", dst="n0", blocking=False, skip=True, jitter="LATEST", window=1, comm=dict(kind="det", loc=0.002, scale=0.0))]
+    return dict(nodes=nodes, conns=conns, supervisor="n1", seed=rng.randrange(1 << 30))
+
+
 def spec_tie_advance(rng):
     """X -> Y (twice the rate, advance=True, zero delays, blocking on X) -> Z: Y emits two outputs with *identical* timestamps
     that reach Z exactly at one of Z's step starts — the situation in which `push_expected_nonblocking` must wait for a
